@@ -22,6 +22,7 @@ func checks() []check {
 			{Name: "rpc-interleavings", Pkg: "daemon", Run: "^TestVerifC04$", Sets: []string{"weave"}, Weave: []string{"daemon", "pkg/eni", "pkg/storage"}, ShardsQ: 9, ShardsT: 16},
 		}},
 		{ID: "C09", Level: "model_checking", Parts: []part{
+			{Name: "k8s-client-conformance", Pkg: "pkg/k8s", Run: "^TestVerifC09Client$"},
 			{Name: "gc-store-vs-pods", Pkg: "daemon", Run: "^TestVerifC09$", Sets: []string{"weave"}, Weave: []string{"daemon", "pkg/eni", "pkg/storage"}, Netns: true, ShardsQ: 12, ShardsT: 16},
 		}},
 		{ID: "C05", Level: "fault_enumeration", Parts: []part{
